@@ -13,12 +13,18 @@
 (***************************************************************************)
 EXTENDS VyMachine, TLC
 
-CONSTANTS MaxToks, StepBound
+CONSTANTS MaxToks, StepBound, AlphaSel
 
 G(c) == Tok("general", <<c>>)
-Alphabet == {Tok("number", <<49>>), Tok("number", <<50>>), G(43), G(58), G(95), G(44), G(110), G(63),
-             G(c_lbrack), G(c_pipe), G(c_rbrack), G(c_lparen), G(c_rparen), G(c_lbrace), G(c_rbrace),
-             G(c_lambda), G(c_semi), G(c_lmap), G(8224), G(c_X), G(c_x), G(87)}
+AlphabetA == {Tok("number", <<49>>), Tok("number", <<50>>), G(43), G(58), G(95), G(44), G(110), G(63),
+              G(c_lbrack), G(c_pipe), G(c_rbrack), G(c_lparen), G(c_rparen), G(c_lbrace), G(c_rbrace),
+              G(c_lambda), G(c_semi), G(c_lmap), G(8224), G(c_X), G(c_x), G(87)}
+(* second alphabet: text, the second batch of elements (two-result extracts, membership, prepend, deltas,
+   running sums, maximum, not-equal), modifiers, list literals *)
+AlphabetB == {Tok("number", <<51>>), Tok("string", <<97, 98>>), Tok("character", <<122>>),
+              G(7715), G(7787), G(112), G(99), G(8800), G(71), G(175), G(166), G(43), G(74), G(76), G(44), G(87),
+              G(c_lparen), G(c_rparen), G(c_llist), G(c_pipe), G(c_rlist), G(m_v), G(m_tilde), G(c_lambda), G(c_semi), G(8224)}
+Alphabet == IF AlphaSel = "B" THEN AlphabetB ELSE AlphabetA
 InputSets == {<<>>, <<VI(3)>>, <<VI(2), VL(<<VI(1), VI(2)>>)>>}
 
 VARIABLES prog, phase, m
